@@ -22,5 +22,7 @@ case $eng in
   conc_race) flags="-race" ;;
   *) echo "unknown engine $eng" >&2; exit 2 ;;
 esac
-"$out/bin/vinstr" -repo "$repo" -out "$scratch" -verif "$(pwd)" -mode $mode || { echo "vinstr failed" >&2; exit 2; }
+extra=""
+[ $mode = full ] && extra="-extra $(pwd)/props/conform/progs=conformprogs"
+"$out/bin/vinstr" -repo "$repo" -out "$scratch" -verif "$(pwd)" -mode $mode $extra || { echo "vinstr failed" >&2; exit 2; }
 go build $flags $VERIF_MODFLAG -overlay "$scratch/overlay.json" -tags verif -o "$out/bin/$eng" $pkg || exit 2
